@@ -129,3 +129,128 @@ func zzC14Store(n int) {
 
 func ZzC14Store2() { zzC14Store(2) }
 func ZzC14Store3() { zzC14Store(3) }
+
+// zzC14Fixed: DependencySort on a fixed spend graph (parents[i] lists the
+// in-set parents of transaction i, all lower-numbered) under every order of
+// the map ranges.
+func zzC14Fixed(parents [][]int) {
+	n := len(parents)
+	txs := make([]*wire.MsgTx, n)
+	hashes := make([]chainhash.Hash, n)
+	for i := 0; i < n; i++ {
+		tx := wire.NewMsgTx(2)
+		tx.LockTime = uint32(i + 1)
+		tx.AddTxOut(wire.NewTxOut(1000, []byte{0x51}))
+		tx.AddTxOut(wire.NewTxOut(2000, []byte{0x51}))
+		tx.AddTxOut(wire.NewTxOut(3000, []byte{0x51}))
+		if len(parents[i]) == 0 {
+			op := wire.OutPoint{Index: uint32(100 + i)}
+			op.Hash[0] = 0xee
+			op.Hash[1] = byte(i)
+			tx.AddTxIn(wire.NewTxIn(&op, nil, nil))
+		}
+		for k, p := range parents[i] {
+			// each child spends its own output of the parent
+			op := wire.OutPoint{Hash: hashes[p], Index: uint32((i + k) % 3)}
+			tx.AddTxIn(wire.NewTxIn(&op, nil, nil))
+		}
+		txs[i] = tx
+		hashes[i] = tx.TxHash()
+	}
+	set := make(map[chainhash.Hash]*wire.MsgTx)
+	for i := range txs {
+		set[hashes[i]] = txs[i]
+	}
+	verifrt.PermuteRanges(true)
+	sorted := DependencySort(set)
+	verifrt.PermuteRanges(false)
+	zzC14Check(n, sorted, hashes, parents)
+}
+
+// shapes with several transactions ready at once ("generations" of the Kahn
+// loop wider than one) and parents releasing several children
+func ZzC14Shapes()    { zzC14Shapes(5) }
+func ZzC14ShapesAll() { zzC14Shapes(6) }
+
+func zzC14Shapes(maxN int) {
+	all := [][][]int{
+		{{}, {}, {0}, {0}},           // two roots, both children hang on the first
+		{{}, {}, {1}, {1}},           // ... on the second
+		{{}, {0}, {0}, {0}},          // one root releasing three children
+		{{}, {}, {0, 1}, {0, 1}},     // two roots, two children spending both
+		{{}, {0}, {0}, {1, 2}},       // diamond
+		{{}, {}, {0}, {0}, {1}, {1}}, // two roots with two children each
+		{{}, {0}, {0}, {1}, {1}},     // a -> x,y ; x -> x1,x2
+	}
+	var shapes [][][]int
+	for _, sh := range all {
+		if len(sh) <= maxN {
+			shapes = append(shapes, sh)
+		}
+	}
+	zzC14Fixed(shapes[verifrt.Choice(len(shapes), "shape")])
+}
+
+// ZzC14StoreConcurrent: a reader lists the unconfirmed transactions in its own
+// read transaction while a writer is between recording a new transaction and
+// committing; once both are done the list is complete and ordered again.
+func ZzC14StoreConcurrent() {
+	verifrt.PreemptionBound(2)
+	txs, hashes, parents := func() ([]*wire.MsgTx, []chainhash.Hash, [][]int) {
+		txs := make([]*wire.MsgTx, 2)
+		hashes := make([]chainhash.Hash, 2)
+		for i := 0; i < 2; i++ {
+			tx := wire.NewMsgTx(2)
+			tx.LockTime = uint32(i + 1)
+			tx.AddTxOut(wire.NewTxOut(1000, []byte{0x51}))
+			var op wire.OutPoint
+			if i == 0 {
+				op = wire.OutPoint{Index: 100}
+				op.Hash[0] = 0xee
+			} else {
+				op = wire.OutPoint{Hash: hashes[0], Index: 0}
+			}
+			tx.AddTxIn(wire.NewTxIn(&op, nil, nil))
+			txs[i] = tx
+			hashes[i] = tx.TxHash()
+		}
+		return txs, hashes, [][]int{{}, {0}}
+	}()
+	w := zzNewWorld(nil)
+	insert := func(i int, yield bool) {
+		rec, err := NewTxRecordFromMsgTx(txs[i], w.clock.now)
+		must(err)
+		must(w.update(func(ns walletdb.ReadWriteBucket) error {
+			if err := w.store.InsertTx(ns, rec, nil); err != nil {
+				return err
+			}
+			if err := w.store.AddCredit(ns, rec, nil, 0, false); err != nil {
+				return err
+			}
+			if yield {
+				verifrt.Yield() // recorded, not yet committed
+			}
+			return nil
+		}))
+	}
+	insert(0, false)
+	done := make(chan struct{})
+	go func() {
+		insert(1, true)
+		close(done)
+	}()
+	// the concurrent reader (resendUnminedTxs runs beside the notification handler)
+	must(w.view(func(ns walletdb.ReadBucket) error {
+		l, err := w.store.UnminedTxs(ns)
+		verifrt.Assert(err == nil && (len(l) == 1 || len(l) == 2), "c14-concurrent-reader-sees-a-committed-state")
+		return nil
+	}))
+	<-done
+	var sorted []*wire.MsgTx
+	must(w.view(func(ns walletdb.ReadBucket) error {
+		var err error
+		sorted, err = w.store.UnminedTxs(ns)
+		return err
+	}))
+	zzC14Check(2, sorted, hashes, parents)
+}
